@@ -391,6 +391,26 @@ func (r *run) c19(budget int, thorough bool) {
 				}
 			}
 		}
+		// an instance owns what it decoded: it shares no state with the caller's buffer either (the next
+		// telegram is received into the same buffer)
+		for _, t := range types {
+			for _, sm := range samples[t.key] {
+				buf := append([]byte(nil), sm.p...)
+				d, _ := dpt.Produce(t.key)
+				if d.Unpack(buf) != nil {
+					continue
+				}
+				for i := range buf {
+					buf[i] ^= 0xff
+				}
+				r.classes["input-buffer-overwritten-after-decoding"]++
+				if got := render(d); got != sm.render {
+					r.violation("instance-aliases-input-buffer", "dpu "+t.name+" "+hx(sm.p)+" ; the caller overwrites its buffer",
+						fmt.Sprintf("the instance held %q, after the caller reused its buffer it holds %q", sm.render, got))
+					break
+				}
+			}
+		}
 		var wg sync.WaitGroup
 		errs := make(chan string, 8)
 		for g := 0; g < 16; g++ {
